@@ -264,8 +264,11 @@ pub fn record_search(opts: &Opts) -> i32 {
         }
         positions += 1;
         let stop_at = events + per_pos;
-        let tf: Vec<Board> = if rng.gen_bool(0.5) { hist.clone() } else { vec![] };
-        op!("record-search probe board={board}");
+        // the repetition history handed to the search: none, the walk that led here, or that walk
+        // several times over (a game that went on after positions had occurred three times and more)
+        let rep = *[1usize, 1, 2, 3, 4].choose(&mut rng).unwrap();
+        let tf: Vec<Board> = if rng.gen_bool(0.5) { hist.iter().cycle().take(hist.len() * rep).copied().collect() } else { vec![] };
+        op!("record-search probe board={board} history={}x{rep}", hist.len());
         // how many polls do `commits_target` passes take?
         let cap = opts.num("cap", 200_000);
         let probe = run_search(board, &tf, Limit::AfterCommits(commits_target, cap), false);
